@@ -1495,13 +1495,17 @@ func (t *table) gc(now bigtable.Timestamp, done <-chan struct{}, force bool) {
 	t.mu.Lock()
 	defer t.mu.Unlock()
 
-	// Gather GC rules we'll apply.
-	rules := make(map[string]*btapb.GcRule) // keyed by "fam"
-	for fam, cf := range t.cols() {
-		if cf.GcRule != nil {
-			rules[fam] = cf.GcRule
+	// Gather GC rules we'll apply. Must hold table lock.
+	gatherRules := func() map[string]*btapb.GcRule {
+		rules := make(map[string]*btapb.GcRule) // keyed by "fam"
+		for fam, cf := range t.cols() {
+			if cf.GcRule != nil {
+				rules[fam] = cf.GcRule
+			}
 		}
+		return rules
 	}
+	rules := gatherRules()
 	if len(rules) == 0 {
 		return
 	}
@@ -1568,6 +1572,12 @@ func (t *table) gc(now bigtable.Timestamp, done <-chan struct{}, force bool) {
 		default:
 		}
 		t.mu.Lock()
+
+		// The schema may have changed while the lock was handed over.
+		rules = gatherRules()
+		if len(rules) == 0 {
+			return
+		}
 	}
 }
 
